@@ -9,10 +9,16 @@
     the schedule by non-decreasing start time. With positive durations the job
     order and the machine order both force STRICTLY increasing start times, so
     that list is a linear extension of "job order ∪ machine order of P"
-    ([linearises], spec/ViewsSpec.v); FjsIff.v then gives acceptance. *)
+    ([linearises], spec/ViewsSpec.v); FjsIff.v then gives acceptance.
+
+    Second part (from "Topological sort" on): the order-theoretic bridge. The
+    relation [prec I P] ("job order ∪ machine order of P", stated on
+    operations without any [L]) has a linear extension iff its transitive
+    closure is irreflexive ([acyclic]); constructively: either a cycle or a
+    linear extension can be exhibited. *)
 From JSL Require Import Base Instance Dstate Filters World Feasible ListFacts DispatchFun Inv Run
   Views ViewsSpec ViewsProofs FjsInv FjsStep FjsRebuild FjsIff FjsPerm.
-From Coq Require Import Lia Permutation Sorted.
+From Coq Require Import Lia Permutation Sorted Relations.
 
 (** ** Insertion sort of scheduled operations by start time *)
 Definition le_start (a b : sop) : Prop := s_start a <= s_start b.
@@ -307,3 +313,568 @@ Proof.
   - left. exists rows. split; [exact H|]. apply accepted_realises; assumption.
   - right. split; [exact H|]. apply (rejected_iff_no_schedule I P Hpos Hs Htp). exact H.
 Qed.
+
+(** ** Topological sort of a decidable relation on a finite duplicate-free list *)
+Section Topo.
+  Variable A : Type.
+  Hypothesis A_dec : forall a b : A, {a = b} + {a <> b}.
+  Variable R : A -> A -> Prop.
+  Hypothesis R_dec : forall a b, R a b \/ ~ R a b.
+
+  (** a path x0 R x1 R x2 ... *)
+  Fixpoint chainp (c : list A) : Prop :=
+    match c with
+    | [] => True
+    | x :: t => match t with [] => True | y :: _ => R x y /\ chainp t end
+    end.
+
+  Lemma chainp_cons2 x y t : chainp (x :: y :: t) <-> R x y /\ chainp (y :: t).
+  Proof. reflexivity. Qed.
+
+  Lemma chainp_tail a t : chainp (a :: t) -> chainp t.
+  Proof. destruct t as [|y t']; [intros _; exact I|]. rewrite chainp_cons2. intros [_ H]; exact H. Qed.
+
+  Lemma chainp_suffix l1 l : chainp (l1 ++ l) -> chainp l.
+  Proof.
+    induction l1 as [|a l1 IH]; [auto|]. change ((a :: l1) ++ l) with (a :: (l1 ++ l)).
+    intros H. apply IH. apply (chainp_tail a). exact H.
+  Qed.
+
+  Lemma chainp_reach l2 : forall a b l3, chainp (a :: l2 ++ b :: l3) -> clos_trans A R a b.
+  Proof.
+    induction l2 as [|c l2 IH]; intros a b l3.
+    - change (a :: [] ++ b :: l3) with (a :: b :: l3). rewrite chainp_cons2. intros [H _]. apply t_step; exact H.
+    - change (a :: (c :: l2) ++ b :: l3) with (a :: c :: l2 ++ b :: l3). rewrite chainp_cons2.
+      intros [H1 H2]. eapply t_trans; [apply t_step; exact H1|eapply IH; exact H2].
+  Qed.
+
+  Lemma chain_grow (U : list A) :
+    (forall x, In x U -> exists y, In y U /\ R y x) -> forall x0, In x0 U ->
+    forall n, exists c, length c = S n /\ chainp c /\ incl c U.
+  Proof.
+    intros Hpred x0 Hx0 n. induction n as [|n IH].
+    - exists [x0]. split; [reflexivity|]. split; [exact I|]. intros z [<-|[]]; exact Hx0.
+    - destruct IH as (c & Hl & Hc & Hi). destruct c as [|y t]; [discriminate|].
+      destruct (Hpred y (Hi y (or_introl eq_refl))) as (x & Hx & Hr).
+      exists (x :: y :: t). split; [simpl in *; lia|]. split; [apply chainp_cons2; split; assumption|].
+      intros z [<-|Hz]; [exact Hx|apply Hi; exact Hz].
+  Qed.
+
+  Lemma dup_or_nodup (c : list A) : NoDup c \/ exists a l1 l2 l3, c = l1 ++ a :: l2 ++ a :: l3.
+  Proof.
+    induction c as [|x t IH]; [left; constructor|].
+    destruct (in_dec A_dec x t) as [Hin|Hn].
+    - right. apply in_split in Hin. destruct Hin as (l2 & l3 & ->). exists x, [], l2, l3. reflexivity.
+    - destruct IH as [IH|(a & l1 & l2 & l3 & ->)].
+      + left; constructor; assumption.
+      + right; exists a, (x :: l1), l2, l3; reflexivity.
+  Qed.
+
+  Lemma dec_exists_in (Q : A -> Prop) :
+    (forall x, Q x \/ ~ Q x) -> forall l, (exists x, In x l /\ Q x) \/ (forall x, In x l -> ~ Q x).
+  Proof.
+    intros Hd l. induction l as [|a l IH]; [right; intros x []|].
+    destruct (Hd a) as [Ha|Ha]; [left; exists a; split; [left; reflexivity|exact Ha]|].
+    destruct IH as [(x & Hx & Hq)|Hn]; [left; exists x; split; [right; exact Hx|exact Hq]|].
+    right. intros x [<-|Hx]; [exact Ha|apply Hn; exact Hx].
+  Qed.
+
+  Lemma minimal_or_cycle U :
+    U <> [] -> (exists x, In x U /\ forall y, In y U -> ~ R y x) \/ exists a, clos_trans A R a a.
+  Proof.
+    intros Hne.
+    assert (Hq : forall x, (forall y, In y U -> ~ R y x) \/ ~ (forall y, In y U -> ~ R y x)).
+    { intros x. destruct (dec_exists_in (fun y => R y x) (fun y => R_dec y x) U) as [(y & Hy & Hr)|Hn].
+      - right. intros H. exact (H y Hy Hr).
+      - left. exact Hn. }
+    destruct (dec_exists_in (fun x => forall y, In y U -> ~ R y x) Hq U) as [(x & Hx & Hm)|Hall].
+    - left. exists x. split; assumption.
+    - right.
+      assert (Hpred : forall x, In x U -> exists y, In y U /\ R y x).
+      { intros x Hx. destruct (dec_exists_in (fun y => R y x) (fun y => R_dec y x) U) as [(y & Hy & Hr)|Hn].
+        - exists y. split; assumption.
+        - exfalso. exact (Hall x Hx Hn). }
+      destruct U as [|x0 U']; [contradiction|].
+      destruct (chain_grow (x0 :: U') Hpred x0 (or_introl eq_refl) (length (x0 :: U'))) as (c & Hl & Hc & Hi).
+      destruct (dup_or_nodup c) as [Hnd|(a & l1 & l2 & l3 & ->)].
+      + pose proof (NoDup_incl_length Hnd Hi). lia.
+      + exists a. apply chainp_suffix in Hc. eapply chainp_reach. exact Hc.
+  Qed.
+
+  Lemma topo_sort n : forall U, length U = n -> NoDup U ->
+    (exists a, clos_trans A R a a) \/
+    exists L, Permutation L U /\
+              forall L1 k L2 a, L = L1 ++ k :: L2 -> In a U -> R a k -> In a L1.
+  Proof.
+    induction n as [|n IH]; intros U Hlen Hnd.
+    - right. exists []. destruct U; [|discriminate]. split; [constructor|].
+      intros L1 k L2 a E. destruct L1; discriminate.
+    - assert (Hne : U <> []) by (destruct U; [discriminate|discriminate]).
+      destruct (minimal_or_cycle U Hne) as [(x & Hx & Hmin)|Hcyc]; [|left; exact Hcyc].
+      apply in_split in Hx. destruct Hx as (U1 & U2 & ->).
+      assert (Hnd' : NoDup (U1 ++ U2)) by (eapply NoDup_remove_1; exact Hnd).
+      assert (Hlen' : length (U1 ++ U2) = n) by (rewrite app_length in *; simpl in Hlen; lia).
+      destruct (IH (U1 ++ U2) Hlen' Hnd') as [Hcyc|(L' & Hp & Ho)]; [left; exact Hcyc|].
+      right. exists (x :: L'). split.
+      + eapply Permutation_trans; [apply perm_skip; exact Hp|apply Permutation_middle].
+      + intros L1 k L2 a E Ha Hr. destruct L1 as [|z L1]; simpl in E; inversion E; subst.
+        * exfalso. exact (Hmin a Ha Hr).
+        * destruct (A_dec a z) as [->|Hne']; [left; reflexivity|right].
+          apply (Ho L1 k L2 a eq_refl); [|exact Hr].
+          apply in_app_or in Ha. apply in_or_app. destruct Ha as [Ha|[Ha|Ha]]; [left; exact Ha| |right; exact Ha].
+          exfalso. apply Hne'. symmetry; exact Ha.
+  Qed.
+End Topo.
+
+(** ** The precedence relation of per-machine job sequences, without [L] *)
+
+(** positions of job [j] whose operation runs on machine [m], increasing *)
+Definition ops_on (I : instance) (m j : nat) : list nat :=
+  filter (fun p => on_machine_k I m (j, p)) (seq 0 (length (get_job I j))).
+
+(** A row of job ids read as a row of operations: the c-th occurrence of [j]
+    (counting from 0) is the c-th operation of job [j] on machine [m]. *)
+Fixpoint decode_row (I : instance) (m : nat) (seen row : list nat) : list (nat * nat) :=
+  match row with
+  | [] => []
+  | j :: t => (j, nth (cnt j seen) (ops_on I m j) 0%nat) :: decode_row I m (j :: seen) t
+  end.
+Definition decode (I : instance) (P : list (list nat)) (m : nat) : list (nat * nat) :=
+  decode_row I m [] (nth m P []).
+
+Definition before {A} (l : list A) (a b : A) : Prop := exists l1 l2 l3, l = l1 ++ a :: l2 ++ b :: l3.
+
+(** [a] must precede [b]: same job and earlier position, or same machine and
+    earlier in that machine's row. *)
+Definition prec (I : instance) (P : list (list nat)) (a b : nat * nat) : Prop :=
+  (In a (all_keys I) /\ In b (all_keys I) /\ fst a = fst b /\ (snd a < snd b)%nat) \/
+  (exists m, (m < num_machines I)%nat /\ before (decode I P m) a b).
+
+Definition acyclic (I : instance) (P : list (list nat)) : Prop :=
+  forall k, ~ clos_trans (nat * nat) (prec I P) k k.
+
+Lemma key_dec (a b : nat * nat) : {a = b} + {a <> b}.
+Proof. decide equality; apply Nat.eq_dec. Qed.
+
+(** *** [before] *)
+Lemma before_dec (l : list (nat * nat)) a b : before l a b \/ ~ before l a b.
+Proof.
+  induction l as [|x t IH].
+  - right. intros (l1 & l2 & l3 & E). destruct l1; discriminate.
+  - destruct IH as [(l1 & l2 & l3 & ->)|Hn]; [left; exists (x :: l1), l2, l3; reflexivity|].
+    destruct (key_dec x a) as [->|Hne].
+    + destruct (in_dec key_dec b t) as [Hin|Hnin].
+      * left. apply in_split in Hin. destruct Hin as (l2 & l3 & ->). exists [], l2, l3. reflexivity.
+      * right. intros (l1 & l2 & l3 & E). destruct l1 as [|z l1]; simpl in E; inversion E; subst.
+        -- apply Hnin. apply in_or_app; right; left; reflexivity.
+        -- apply Hn. exists l1, l2, l3. reflexivity.
+    + right. intros (l1 & l2 & l3 & E). destruct l1 as [|z l1]; simpl in E; inversion E; subst.
+      * apply Hne; reflexivity.
+      * apply Hn. exists l1, l2, l3. reflexivity.
+Qed.
+
+Lemma bounded_dec (Q : nat -> Prop) : (forall m, Q m \/ ~ Q m) ->
+  forall n, (exists m, (m < n)%nat /\ Q m) \/ ~ (exists m, (m < n)%nat /\ Q m).
+Proof.
+  intros Hd n. induction n as [|n IH]; [right; intros (m & Hm & _); lia|].
+  destruct IH as [(m & Hm & Hq)|Hn]; [left; exists m; split; [lia|exact Hq]|].
+  destruct (Hd n) as [Hq|Hq]; [left; exists n; split; [lia|exact Hq]|].
+  right. intros (m & Hm & Hqm). destruct (Nat.eq_dec m n) as [->|Hne]; [contradiction|].
+  apply Hn. exists m. split; [lia|exact Hqm].
+Qed.
+
+Lemma prec_dec I P a b : prec I P a b \/ ~ prec I P a b.
+Proof.
+  unfold prec.
+  destruct (bounded_dec (fun m => before (decode I P m) a b) (fun m => before_dec _ a b) (num_machines I)) as [H|H];
+    [left; right; exact H|].
+  destruct (in_dec key_dec a (all_keys I)) as [Ha|Ha]; [|right; intros [(H1 & _)|H1]; contradiction].
+  destruct (in_dec key_dec b (all_keys I)) as [Hb|Hb]; [|right; intros [(_ & H1 & _)|H1]; contradiction].
+  destruct (Nat.eq_dec (fst a) (fst b)) as [E|E]; [|right; intros [(_ & _ & H1 & _)|H1]; contradiction].
+  destruct (lt_dec (snd a) (snd b)) as [Hl|Hl]; [|right; intros [(_ & _ & _ & H1)|H1]; contradiction].
+  left; left; auto.
+Qed.
+
+(** *** position in a list *)
+Fixpoint idx (k : nat * nat) (L : list (nat * nat)) : nat :=
+  match L with [] => 0%nat | x :: t => if key_dec x k then 0%nat else S (idx k t) end.
+
+Lemma idx_in a L1 L2 : In a L1 -> (idx a (L1 ++ L2) < length L1)%nat.
+Proof.
+  induction L1 as [|x t IH]; intros H; [destruct H|]. simpl. destruct (key_dec x a) as [E|Hne]; [lia|].
+  destruct H as [H|H]; [contradiction|]. specialize (IH H). lia.
+Qed.
+
+Lemma idx_notin a L1 L2 : ~ In a L1 -> idx a (L1 ++ a :: L2) = length L1.
+Proof.
+  induction L1 as [|x t IH]; intros H; simpl.
+  - destruct (key_dec a a); [reflexivity|contradiction].
+  - destruct (key_dec x a) as [E|Hne]; [exfalso; apply H; left; exact E|].
+    rewrite IH; [reflexivity|]. intros Hin. apply H. right; exact Hin.
+Qed.
+
+Lemma before_idx L a b : NoDup L -> before L a b -> (idx a L < idx b L)%nat.
+Proof.
+  intros Hnd (l1 & l2 & l3 & ->).
+  assert (Hb : ~ In b (l1 ++ a :: l2)).
+  { replace (l1 ++ a :: l2 ++ b :: l3) with ((l1 ++ a :: l2) ++ b :: l3) in Hnd by (rewrite <- app_assoc; reflexivity).
+    apply NoDup_remove_2 in Hnd. intros H. apply Hnd. apply in_or_app. left; exact H. }
+  replace (l1 ++ a :: l2 ++ b :: l3) with ((l1 ++ a :: l2) ++ b :: l3) at 2 by (rewrite <- app_assoc; reflexivity).
+  rewrite (idx_notin b _ l3 Hb).
+  assert (Ha : In a (l1 ++ a :: l2)) by (apply in_or_app; right; left; reflexivity).
+  replace (l1 ++ a :: l2 ++ b :: l3) with ((l1 ++ a :: l2) ++ b :: l3) by (rewrite <- app_assoc; reflexivity).
+  apply idx_in. exact Ha.
+Qed.
+
+(** a split of [filter f L] comes from a split of [L] *)
+Lemma filter_split {A} (f : A -> bool) (L : list A) : forall l1 a r,
+  filter f L = l1 ++ a :: r -> exists L1 R, L = L1 ++ a :: R /\ filter f L1 = l1 /\ filter f R = r.
+Proof.
+  induction L as [|x t IH]; intros l1 a r E; simpl in E; [destruct l1; discriminate|].
+  destruct (f x) eqn:Ef.
+  - destruct l1 as [|z l1]; simpl in E; inversion E; subst.
+    + exists [], t. auto.
+    + destruct (IH l1 a r H1) as (L1 & R & -> & H2 & H3). exists (z :: L1), R. simpl. rewrite Ef, H2. auto.
+  - destruct (IH l1 a r E) as (L1 & R & -> & H2 & H3). exists (x :: L1), R. simpl. rewrite Ef. auto.
+Qed.
+
+Lemma before_filter {A} (f : A -> bool) (L : list A) a b : before (filter f L) a b -> before L a b.
+Proof.
+  intros (l1 & l2 & l3 & E). destruct (filter_split f L l1 a _ E) as (L1 & R & -> & _ & ER).
+  destruct (filter_split f R l2 b l3 ER) as (L2 & L3 & -> & _ & _). exists L1, L2, L3. reflexivity.
+Qed.
+
+Lemma cnt_cons j x l : cnt j (x :: l) = ((if (j =? x)%nat then 1 else 0) + cnt j l)%nat.
+Proof. unfold cnt. simpl. destruct (j =? x)%nat; reflexivity. Qed.
+
+Lemma map_fst_decode_row I m row : forall seen, map fst (decode_row I m seen row) = row.
+Proof. induction row as [|j t IH]; intros seen; simpl; [reflexivity|]. rewrite IH. reflexivity. Qed.
+
+Lemma nth_filter_seq (f : nat -> bool) n p d :
+  (p < n)%nat -> f p = true -> nth (length (filter f (seq 0 p))) (filter f (seq 0 n)) d = p.
+Proof.
+  intros Hp Hf. replace n with (p + S (n - S p))%nat by lia.
+  rewrite seq_app, filter_app. simpl. rewrite Hf. rewrite app_nth2 by lia. rewrite Nat.sub_diag. reflexivity.
+Qed.
+
+Lemma get_op_some_lt I j p : (p < length (get_job I j))%nat -> exists o, get_op I j p = Some o.
+Proof.
+  unfold get_op, get_job. intros H. destruct (nth_error I j) as [job|] eqn:E.
+  - rewrite (nth_error_nth _ _ _ E) in H. destruct (nth_error job p) eqn:E2; [eauto|].
+    apply nth_error_None in E2. lia.
+  - rewrite (nth_overflow I []) in H by (apply nth_error_None; exact E). simpl in H. lia.
+Qed.
+
+Lemma in_ops_on I m j p : In p (ops_on I m j) <-> In (j, p) (all_keys I) /\ on_machine_k I m (j, p) = true.
+Proof.
+  unfold ops_on. rewrite filter_In, in_seq, all_keys_In. split.
+  - intros [Hp Hon]. split; [apply get_op_some_lt; lia|exact Hon].
+  - intros [[o Ho] Hon]. split; [|exact Hon]. destruct (get_op_bounds _ _ _ _ Ho). lia.
+Qed.
+
+Lemma NoDup_ops_on I m j : NoDup (ops_on I m j).
+Proof. apply NoDup_filter. apply seq_NoDup. Qed.
+
+(** the number of operations of job [j] on machine [m], counted in a
+    duplicate-free list of keys *)
+Lemma count_job_keys I m j (K : list (nat * nat)) (f : nat -> bool) :
+  NoDup K ->
+  (forall q, In (j, q) K /\ on_machine_k I m (j, q) = true <-> In q (filter f (ops_on I m j))) ->
+  cnt j (project I m K) = length (filter f (ops_on I m j)).
+Proof.
+  intros Hnd Hiff. unfold project. rewrite cnt_map.
+  rewrite <- (map_length (pair j) (filter f (ops_on I m j))). apply Permutation_length. apply NoDup_Permutation.
+  - apply NoDup_filter. apply NoDup_filter. exact Hnd.
+  - apply FinFun.Injective_map_NoDup; [intros x y E; inversion E; reflexivity|].
+    apply NoDup_filter. apply NoDup_ops_on.
+  - intros [j' q]. rewrite filter_In, filter_In, in_map_iff. cbn [fst]. split.
+    + intros [[Hin Hon] Hj]. apply Nat.eqb_eq in Hj. subst j'. exists q. split; [reflexivity|].
+      apply Hiff. split; assumption.
+    + intros (q' & E & Hq). inversion E; subst. apply Hiff in Hq. destruct Hq as [Hin Hon].
+      split; [split; assumption|apply Nat.eqb_refl].
+Qed.
+
+Lemma filter_all {A} (f : A -> bool) l : (forall x, In x l -> f x = true) -> filter f l = l.
+Proof.
+  induction l as [|a l IH]; intros H; simpl; [reflexivity|]. rewrite (H a (or_introl eq_refl)).
+  rewrite IH; [reflexivity|]. intros x Hx. apply H. right; exact Hx.
+Qed.
+
+Lemma filter_none {A} (f : A -> bool) l : (forall x, In x l -> f x = false) -> filter f l = [].
+Proof.
+  induction l as [|a l IH]; intros H; simpl; [reflexivity|]. rewrite (H a (or_introl eq_refl)).
+  apply IH. intros x Hx. apply H. right; exact Hx.
+Qed.
+
+Lemma nth_filter_below (g : nat -> bool) n p d :
+  (p < n)%nat -> g p = true ->
+  nth (length (filter (fun q => q <? p)%nat (filter g (seq 0 n)))) (filter g (seq 0 n)) d = p.
+Proof.
+  intros Hp Hg. replace n with (p + S (n - S p))%nat by lia.
+  rewrite seq_app, filter_app. simpl. rewrite Hg. rewrite filter_app. simpl. rewrite Nat.ltb_irrefl.
+  rewrite (filter_all (fun q => (q <? p)%nat) (filter g (seq 0 p))).
+  - rewrite (filter_none (fun q => (q <? p)%nat) (filter g (seq (S p) (n - S p)))).
+    + rewrite app_nil_r. rewrite app_nth2 by lia. rewrite Nat.sub_diag. reflexivity.
+    + intros x Hx. apply filter_In in Hx. destruct Hx as [Hx _]. apply in_seq in Hx. apply Nat.ltb_ge. lia.
+  - intros x Hx. apply filter_In in Hx. destruct Hx as [Hx _]. apply in_seq in Hx. apply Nat.ltb_lt. lia.
+Qed.
+
+Lemma nth_map_seq {A} (f : nat -> A) n m d : (m < n)%nat -> nth m (map f (seq 0 n)) d = f m.
+Proof.
+  intros Hm. rewrite (nth_indep _ d (f 0%nat)) by (rewrite map_length, seq_length; exact Hm).
+  rewrite map_nth, seq_nth by exact Hm. reflexivity.
+Qed.
+
+(** ** A linear extension exists => no cycle *)
+Section Forward.
+  Variables (I : instance) (P : list (list nat)) (L : list (nat * nat)).
+  Hypothesis HL : linearises I P L.
+
+  Lemma lin_NoDup : NoDup L.
+  Proof. eapply Permutation_NoDup; [apply Permutation_sym; apply (lin_perm _ _ _ HL)|apply NoDup_all_keys]. Qed.
+
+  Lemma lin_in k : In k L <-> In k (all_keys I).
+  Proof.
+    split; intros H.
+    - eapply Permutation_in; [apply (lin_perm _ _ _ HL)|exact H].
+    - eapply Permutation_in; [apply Permutation_sym; apply (lin_perm _ _ _ HL)|exact H].
+  Qed.
+
+  (** before the operation (j, p), the operations of job j are exactly (j, 0..p-1) *)
+  Lemma prefix_job_keys L1 j p L2 q : L = L1 ++ (j, p) :: L2 -> (In (j, q) L1 <-> (q < p)%nat).
+  Proof.
+    intros E. pose proof lin_NoDup as Hnd. split.
+    - intros Hin. destruct (lt_eq_lt_dec q p) as [[Hlt|Heq]|Hgt]; [exact Hlt|exfalso|exfalso].
+      + subst q. rewrite E in Hnd. apply NoDup_remove_2 in Hnd. apply Hnd. apply in_or_app; left; exact Hin.
+      + apply in_split in Hin. destruct Hin as (A1 & B1 & ->).
+        rewrite <- app_assoc in E. simpl in E.
+        pose proof (lin_job _ _ _ HL A1 (j, q) (B1 ++ (j, p) :: L2) p E Hgt) as H. cbn [fst] in H.
+        rewrite E in Hnd.
+        replace (A1 ++ (j, q) :: B1 ++ (j, p) :: L2) with ((A1 ++ (j, q) :: B1) ++ (j, p) :: L2) in Hnd
+          by (rewrite <- app_assoc; reflexivity).
+        apply NoDup_remove_2 in Hnd. apply Hnd. apply in_or_app. left. apply in_or_app. left. exact H.
+    - intros Hq. exact (lin_job _ _ _ HL L1 (j, p) L2 q E Hq).
+  Qed.
+
+  Lemma decode_row_filter m : forall L2 L1 seen,
+    L = L1 ++ L2 -> (forall j, cnt j seen = cnt j (project I m L1)) ->
+    decode_row I m seen (project I m L2) = filter (on_machine_k I m) L2.
+  Proof.
+    induction L2 as [|k L2 IH]; intros L1 seen E Hc; [reflexivity|].
+    assert (E' : L = (L1 ++ [k]) ++ L2) by (rewrite <- app_assoc; exact E).
+    unfold project in *. cbn [filter]. destruct (on_machine_k I m k) eqn:Hon.
+    - destruct k as [j p]. cbn [map fst decode_row].
+      assert (Hk : In (j, p) (all_keys I)) by (apply lin_in; rewrite E; apply in_or_app; right; left; reflexivity).
+      assert (Hnd1 : NoDup L1).
+      { pose proof lin_NoDup as Hnd. rewrite E in Hnd. apply NoDup_app_both in Hnd. apply Hnd. }
+      assert (Hp : nth (cnt j seen) (ops_on I m j) 0%nat = p).
+      { rewrite Hc. fold (project I m L1).
+        rewrite (count_job_keys I m j L1 (fun q => (q <? p)%nat) Hnd1).
+        - unfold ops_on. apply nth_filter_below; [|exact Hon].
+          apply all_keys_In in Hk. destruct Hk as [o Ho]. apply (get_op_bounds _ _ _ _ Ho).
+        - intros q. rewrite filter_In, in_ops_on, (prefix_job_keys L1 j p L2 q E), Nat.ltb_lt. split.
+          + intros [Hq Honq]. split; [split; [|exact Honq]|exact Hq].
+            apply lin_in. rewrite E. apply in_or_app. left. apply (prefix_job_keys L1 j p L2 q E). exact Hq.
+          + intros [[_ Honq] Hq]. split; assumption. }
+      rewrite Hp. f_equal. apply (IH (L1 ++ [(j, p)]) (j :: seen) E').
+      intros j'. rewrite filter_app, map_app, cnt_app, cnt_cons, Hc. cbn [filter]. rewrite Hon. cbn [map fst].
+      rewrite cnt_cons. unfold cnt at 3. simpl. lia.
+    - apply (IH (L1 ++ [k]) seen E'). intros j'. rewrite Hc, filter_app, map_app, cnt_app. cbn [filter].
+      rewrite Hon. simpl. unfold cnt at 3. simpl. lia.
+  Qed.
+
+  Lemma decode_is_filter m : (m < num_machines I)%nat -> decode I P m = filter (on_machine_k I m) L.
+  Proof.
+    intros Hm. unfold decode. rewrite (lin_rows _ _ _ HL), nth_map_seq by exact Hm.
+    apply (decode_row_filter m L [] []); [reflexivity|]. intros j. reflexivity.
+  Qed.
+
+  Lemma prec_idx a b : prec I P a b -> (idx a L < idx b L)%nat.
+  Proof.
+    intros [(Ha & Hb & Hj & Hp)|(m & Hm & Hbef)].
+    - apply lin_in in Hb. apply in_split in Hb. destruct Hb as (L1 & L2 & E).
+      pose proof (lin_job _ _ _ HL L1 b L2 (snd a) E Hp) as Hin. rewrite <- Hj, <- surjective_pairing in Hin.
+      assert (Hnb : ~ In b L1).
+      { pose proof lin_NoDup as Hnd. rewrite E in Hnd. apply NoDup_remove_2 in Hnd. intros H. apply Hnd.
+        apply in_or_app; left; exact H. }
+      rewrite E at 2. rewrite (idx_notin b L1 L2 Hnb). rewrite E. apply idx_in. exact Hin.
+    - rewrite (decode_is_filter m Hm) in Hbef. apply before_filter in Hbef. apply before_idx; [apply lin_NoDup|exact Hbef].
+  Qed.
+
+  Theorem linearises_acyclic : acyclic I P.
+  Proof.
+    assert (H : forall a b, clos_trans _ (prec I P) a b -> (idx a L < idx b L)%nat).
+    { intros a b Hab. induction Hab as [a b Hab|a b c _ IH1 _ IH2]; [apply prec_idx; exact Hab|lia]. }
+    intros k Hk. specialize (H k k Hk). lia.
+  Qed.
+End Forward.
+
+(** two duplicate-free arrangements of the same elements, one of which respects the order of the other, are equal *)
+Lemma order_unique {A} (D : list A) : forall F, NoDup D -> Permutation D F ->
+  (forall a b, before D a b -> forall F1 F2, F = F1 ++ b :: F2 -> In a F1) -> D = F.
+Proof.
+  induction D as [|a D IH]; intros F Hnd Hp H.
+  - apply Permutation_nil in Hp. symmetry; exact Hp.
+  - destruct F as [|b F]; [apply Permutation_sym, Permutation_nil in Hp; discriminate|].
+    assert (E : a = b).
+    { assert (Hb : In b (a :: D)) by (eapply Permutation_in; [apply Permutation_sym; exact Hp|left; reflexivity]).
+      destruct Hb as [E|Hb]; [exact E|exfalso].
+      apply in_split in Hb. destruct Hb as (l2 & l3 & ->).
+      apply (H a b (ex_intro _ [] (ex_intro _ l2 (ex_intro _ l3 eq_refl))) [] F eq_refl). }
+    subst b. f_equal. inversion Hnd as [|? ? Hni Hnd']; subst. apply IH; [exact Hnd'|eapply Permutation_cons_inv; exact Hp|].
+    intros a' b' (l1 & l2 & l3 & ->) F1 F2 ->.
+    destruct (H a' b' (ex_intro _ (a :: l1) (ex_intro _ l2 (ex_intro _ l3 eq_refl))) (a :: F1) F2 eq_refl) as [<-|Hin];
+      [|exact Hin].
+    exfalso. apply Hni. apply in_or_app; right; left; reflexivity.
+Qed.
+
+(** ** No cycle => a linear extension exists (for true per-machine permutations) *)
+Section Backward.
+  Variables (I : instance) (P : list (list nat)).
+  Hypothesis Htp : true_permutation I P.
+
+  Lemma cnt_row m j : (m < num_machines I)%nat -> cnt j (nth m P []) = length (ops_on I m j).
+  Proof.
+    intros Hm. rewrite (cnt_perm _ _ _ (proj2 Htp m Hm)).
+    rewrite (count_job_keys I m j (all_keys I) (fun _ => true) (NoDup_all_keys I)).
+    - rewrite filter_all; [reflexivity|auto].
+    - intros q. rewrite filter_all by auto. rewrite in_ops_on. tauto.
+  Qed.
+
+  Lemma decode_row_facts m : forall t seen,
+    (forall j, (cnt j seen + cnt j t <= length (ops_on I m j))%nat) ->
+    NoDup (decode_row I m seen t) /\
+    forall x, In x (decode_row I m seen t) ->
+      exists c, (cnt (fst x) seen <= c)%nat /\ (c < length (ops_on I m (fst x)))%nat /\
+                snd x = nth c (ops_on I m (fst x)) 0%nat.
+  Proof.
+    induction t as [|j t IH]; intros seen Hc; [split; [constructor|intros x []]|].
+    cbn [decode_row].
+    assert (Hc' : forall j', (cnt j' (j :: seen) + cnt j' t <= length (ops_on I m j'))%nat).
+    { intros j'. specialize (Hc j'). rewrite cnt_cons in *. lia. }
+    destruct (IH (j :: seen) Hc') as [Hnd Hall].
+    assert (Hc0 : (cnt j seen < length (ops_on I m j))%nat).
+    { specialize (Hc j). rewrite cnt_cons, Nat.eqb_refl in Hc. lia. }
+    split.
+    - constructor; [|exact Hnd]. intros Hin. destruct (Hall _ Hin) as (c & Hle & Hlt & Hnth). cbn [fst snd] in *.
+      rewrite cnt_cons, Nat.eqb_refl in Hle.
+      assert (cnt j seen = c) by (apply (proj1 (NoDup_nth (ops_on I m j) 0%nat) (NoDup_ops_on I m j)); assumption).
+      lia.
+    - intros x [<-|Hx].
+      + exists (cnt j seen). cbn [fst snd]. split; [lia|]. split; [exact Hc0|reflexivity].
+      + destruct (Hall x Hx) as (c & Hle & Hlt & Hnth). exists c. rewrite cnt_cons in Hle.
+        split; [lia|]. split; assumption.
+  Qed.
+
+  Lemma decode_facts m : (m < num_machines I)%nat ->
+    NoDup (decode I P m) /\
+    forall x, In x (decode I P m) -> In x (all_keys I) /\ on_machine_k I m x = true.
+  Proof.
+    intros Hm. unfold decode.
+    destruct (decode_row_facts m (nth m P []) []) as [Hnd Hall].
+    { intros j. rewrite (cnt_row m j Hm). unfold cnt at 1. simpl. lia. }
+    split; [exact Hnd|]. intros [j p] Hx. destruct (Hall _ Hx) as (c & _ & Hlt & Hnth). cbn [fst snd] in *.
+    apply in_ops_on. rewrite Hnth. apply nth_In. exact Hlt.
+  Qed.
+
+  Lemma decode_perm m F : (m < num_machines I)%nat -> NoDup F ->
+    (forall x, In x F <-> In x (all_keys I) /\ on_machine_k I m x = true) -> Permutation (decode I P m) F.
+  Proof.
+    intros Hm HF Hiff. destruct (decode_facts m Hm) as [Hnd Hin]. apply NoDup_Permutation_bis.
+    - exact Hnd.
+    - assert (E : length (decode I P m) = length (filter (on_machine_k I m) (all_keys I))).
+      { rewrite <- (map_length fst (decode I P m)). unfold decode. rewrite map_fst_decode_row.
+        rewrite (Permutation_length (proj2 Htp m Hm)). unfold project. apply map_length. }
+      rewrite E. apply NoDup_incl_length; [exact HF|]. intros x Hx. apply filter_In. apply Hiff. exact Hx.
+    - intros x Hx. apply Hiff. apply Hin. exact Hx.
+  Qed.
+
+  Theorem cycle_or_linearisation :
+    (exists k, clos_trans _ (prec I P) k k) \/ exists L, linearises I P L.
+  Proof.
+    destruct (topo_sort _ key_dec (prec I P) (prec_dec I P) _ (all_keys I) eq_refl (NoDup_all_keys I))
+      as [H|(L & Hp & Ho)]; [left; exact H|right].
+    assert (Hin : forall k, In k L <-> In k (all_keys I)).
+    { intros k. split; intros H; [eapply Permutation_in; [exact Hp|exact H]|].
+      eapply Permutation_in; [apply Permutation_sym; exact Hp|exact H]. }
+    assert (HndL : NoDup L) by (eapply Permutation_NoDup; [apply Permutation_sym; exact Hp|apply NoDup_all_keys]).
+    exists L. constructor.
+    - exact Hp.
+    - intros L1 [j p] L2 q E Hq. cbn [fst snd] in *.
+      assert (Hk : In (j, p) (all_keys I)) by (apply Hin; rewrite E; apply in_or_app; right; left; reflexivity).
+      assert (Hkq : In (j, q) (all_keys I)).
+      { apply all_keys_In in Hk. destruct Hk as [o Ho']. destruct (get_op_bounds _ _ _ _ Ho') as [_ Hb].
+        apply all_keys_In. apply get_op_some_lt. lia. }
+      apply (Ho L1 (j, p) L2 (j, q) E Hkq). left. cbn [fst snd]. auto.
+    - apply list_eq_nth with (d := []); [exact (proj1 Htp)|]. intros m Hm.
+      rewrite <- (map_fst_decode_row I m (nth m P []) []). fold (decode I P m). unfold project. f_equal.
+      destruct (decode_facts m Hm) as [Hnd Hdin]. apply order_unique.
+      + exact Hnd.
+      + apply decode_perm; [exact Hm|apply NoDup_filter; exact HndL|].
+        intros x. rewrite filter_In, Hin. tauto.
+      + intros a b Hbef F1 F2 EF. destruct (filter_split _ _ _ _ _ EF) as (L1 & R & EL & <- & _).
+        assert (Ha : In a (decode I P m)).
+        { destruct Hbef as (l1 & l2 & l3 & ->). apply in_or_app; right; left; reflexivity. }
+        destruct (Hdin a Ha) as [Hak Hon]. apply filter_In. split; [|exact Hon].
+        apply (Ho L1 b R a EL Hak). right. exists m. split; assumption.
+  Qed.
+End Backward.
+
+Theorem linearisable_iff_acyclic I P :
+  true_permutation I P -> ((exists L, linearises I P L) <-> acyclic I P).
+Proof.
+  intros Htp. split.
+  - intros [L HL]. exact (linearises_acyclic I P L HL).
+  - intros Hac. destruct (cycle_or_linearisation I P Htp) as [[k Hk]|H]; [exfalso; exact (Hac k Hk)|exact H].
+Qed.
+
+Theorem accept_iff_acyclic I P :
+  valid I -> single_machine I -> true_permutation I P ->
+  ((exists rows, from_job_sequences I (map (map Z.of_nat) P) = FOk rows) <-> acyclic I P).
+Proof.
+  intros Hv Hs Htp. rewrite <- (linearisable_iff_acyclic I P Htp). split.
+  - intros [rows H].
+    destruct (accept_only_if_linearisable I Hv Hs P rows (proj1 Htp) (true_permutation_total I Hs P Htp) H)
+      as (h & d & _ & _ & HL). eauto.
+  - intros [L HL]. destruct (accept_if_linearisable I Hv Hs P L HL) as (h & d & _ & _ & H). eauto.
+Qed.
+
+Theorem rejected_iff_cycle I P :
+  valid I -> single_machine I -> true_permutation I P ->
+  (from_job_sequences I (map (map Z.of_nat) P) = FErr EValidation <->
+   exists k, clos_trans _ (prec I P) k k).
+Proof.
+  intros Hv Hs Htp. split.
+  - intros Hrej. destruct (cycle_or_linearisation I P Htp) as [H|[L HL]]; [exact H|exfalso].
+    destruct (accept_if_linearisable I Hv Hs P L HL) as (h & d & _ & _ & H). congruence.
+  - intros [k Hk]. destruct (true_permutation_outcome I Hv Hs P Htp) as [(rows & _ & _ & _ & [L HL])|[H _]]; [exfalso|exact H].
+    exact (linearises_acyclic I P L HL k Hk).
+Qed.
+
+(** *** The three readings agree: accepted, schedulable, acyclic. *)
+Theorem schedule_iff_acyclic I P :
+  positive I -> single_machine I -> true_permutation I P ->
+  ((exists S, realises I P S) <-> acyclic I P).
+Proof.
+  intros Hpos Hs Htp. pose proof (positive_is_valid I Hpos) as Hv.
+  rewrite <- (accept_iff_acyclic I P Hv Hs Htp). symmetry.
+  apply (accepted_iff_schedule I P Hpos Hs (proj1 Htp) (true_permutation_total I Hs P Htp)).
+Qed.
+
+Lemma prec_def I P a b :
+  prec I P a b <->
+  (In a (all_keys I) /\ In b (all_keys I) /\ fst a = fst b /\ (snd a < snd b)%nat) \/
+  (exists m, (m < num_machines I)%nat /\
+             exists l1 l2 l3, decode_row I m [] (nth m P []) = l1 ++ a :: l2 ++ b :: l3).
+Proof. reflexivity. Qed.
+
+Lemma acyclic_def I P : acyclic I P <-> forall k, ~ clos_trans (nat * nat) (prec I P) k k.
+Proof. reflexivity. Qed.
+
+Lemma decode_row_def I m seen j t :
+  decode_row I m seen [] = [] /\
+  decode_row I m seen (j :: t) =
+    (j, nth (length (filter (Nat.eqb j) seen))
+            (filter (fun p => mem_nat m (kmachines I (j, p))) (seq 0 (length (get_job I j)))) 0%nat)
+    :: decode_row I m (j :: seen) t.
+Proof. split; reflexivity. Qed.
